@@ -758,8 +758,10 @@ func (m *MRealm) Call(s int, req wamp.ID, opts wamp.Dict, proc string, args wamp
 	var alts []string
 	var tos []int
 	refused := true
+	someRefused := false
 	for _, c := range cs {
 		if discloseMe && !c.reg.Disclose && !m.AllowDisclose {
+			someRefused = true
 			continue
 		}
 		refused = false
@@ -772,7 +774,7 @@ func (m *MRealm) Call(s int, req wamp.ID, opts wamp.Dict, proc string, args wamp
 	}
 	call.Cands = tos
 	m.Calls = append(m.Calls, call)
-	if len(alts) == 1 {
+	if len(alts) == 1 && !someRefused {
 		call.Callee = tos[0]
 		call.Reg = cs[0].reg
 		m.noteRR(call.Reg, call.Callee)
@@ -782,6 +784,10 @@ func (m *MRealm) Call(s int, req wamp.ID, opts wamp.Dict, proc string, args wamp
 	out := make([]Exp, 0, len(alts))
 	for i := range alts {
 		out = append(out, Exp{To: tos[i], Text: alts[i], Alt: []string{"?choice"}})
+	}
+	if someRefused {
+		// one of the equally good registrations would refuse the call: that outcome is as right as the others
+		out = append(out, Exp{To: s, Text: errText(wamp.CALL, req, "wamp.error.option_disallowed.disclose_me"), Alt: []string{"?choice"}})
 	}
 	// remember the registrations for resolution
 	call.Reg = nil
@@ -812,6 +818,12 @@ func (m *MRealm) noteRR(reg *MReg, callee int) {
 
 // CallResolve fixes the callee of an ambiguous call after observation.
 func (m *MRealm) CallResolve(call *MCall, callee int, regSym int) {
+	if regSym == 0 && callee == call.Caller && !contains(call.Cands, callee) || regSym < 0 {
+		// the refusing registration was chosen: no call came into being
+		call.Done = true
+		delete(callRegs, call)
+		return
+	}
 	call.Callee = callee
 	if f := callRegs[call]; f != nil {
 		call.Reg = f(callee, regSym)
